@@ -124,3 +124,173 @@ Proof.
   intros N. unfold mset. rewrite filter_minsert_other by exact N.
   apply filter_mremove_other. exact N.
 Qed.
+
+(* ---------- induction over JSON trees ---------- *)
+Section json_ind'.
+  Variable Q : json -> Prop.
+  Hypothesis HNull : Q JNull.
+  Hypothesis HBool : forall b, Q (JBool b).
+  Hypothesis HNum : forall l, Q (JNum l).
+  Hypothesis HStr : forall s, Q (JStr s).
+  Hypothesis HArr : forall l, Forall Q l -> Q (JArr l).
+  Hypothesis HObj : forall ms, Forall (fun m => Q (snd m)) ms -> Q (JObj ms).
+
+  Fixpoint json_ind' (j : json) : Q j :=
+    match j with
+    | JNull => HNull
+    | JBool b => HBool b
+    | JNum l => HNum l
+    | JStr s => HStr s
+    | JArr l => HArr l ((fix go (l : list json) : Forall Q l :=
+                           match l with
+                           | [] => Forall_nil _
+                           | x :: t => Forall_cons x (json_ind' x) (go t)
+                           end) l)
+    | JObj ms => HObj ms ((fix go (ms : list (bytes * json)) : Forall (fun m => Q (snd m)) ms :=
+                             match ms with
+                             | [] => Forall_nil _
+                             | m :: t => Forall_cons m (json_ind' (snd m)) (go t)
+                             end) ms)
+    end.
+End json_ind'.
+
+(* ---------- more about maps ---------- *)
+Lemma mget_mremove_same k m : mget k (mremove k m) = None.
+Proof.
+  induction m as [|[k' v'] m IH]; [reflexivity|]. cbn [mremove].
+  destruct (bytes_eqb k k') eqn:E; [exact IH|]. cbn [mget]. rewrite E. exact IH.
+Qed.
+Lemma mget_mremove_other k k' m : k <> k' -> mget k (mremove k' m) = mget k m.
+Proof.
+  intros N. induction m as [|[k0 v0] m IH]; [reflexivity|]. cbn [mremove mget].
+  destruct (bytes_eqb_spec k' k0) as [->|N0].
+  - destruct (bytes_eqb_spec k k0); [congruence|]. exact IH.
+  - cbn [mget]. rewrite IH. reflexivity.
+Qed.
+Lemma mget_minsert_fresh k v m : mget k m = None -> mget k (minsert k v m) = Some v.
+Proof.
+  induction m as [|[k0 v0] m IH]; cbn [minsert mget].
+  - rewrite bytes_eqb_refl. reflexivity.
+  - destruct (bytes_eqb k k0) eqn:E; [discriminate|]. intros H.
+    destruct (bytes_ltb k k0); cbn [mget].
+    + rewrite bytes_eqb_refl. reflexivity.
+    + rewrite E. apply IH. exact H.
+Qed.
+Lemma mget_minsert_other k k' v m : k <> k' -> mget k (minsert k' v m) = mget k m.
+Proof.
+  intros N. induction m as [|[k0 v0] m IH]; cbn [minsert mget].
+  - destruct (bytes_eqb_spec k k'); [congruence|]. reflexivity.
+  - destruct (bytes_ltb k' k0); cbn [mget].
+    + destruct (bytes_eqb_spec k k'); [congruence|]. reflexivity.
+    + rewrite IH. reflexivity.
+Qed.
+Lemma mget_mset_same k v m : mget k (mset k v m) = Some v.
+Proof. unfold mset. apply mget_minsert_fresh. apply mget_mremove_same. Qed.
+Lemma mget_mset_other k k' v m : k <> k' -> mget k (mset k' v m) = mget k m.
+Proof. intros N. unfold mset. rewrite mget_minsert_other by exact N. apply mget_mremove_other. exact N. Qed.
+
+Lemma mget_In k v m : mget k m = Some v -> In (k, v) m.
+Proof.
+  induction m as [|[k0 v0] m IH]; cbn [mget]; [discriminate|].
+  destruct (bytes_eqb_spec k k0) as [->|].
+  - intros H; injection H as ->. left; reflexivity.
+  - intros H. right. apply IH. exact H.
+Qed.
+
+Lemma In_mremove e k m : In e (mremove k m) -> In e m.
+Proof.
+  induction m as [|[k0 v0] m IH]; cbn [mremove]; [tauto|].
+  destruct (bytes_eqb k k0); cbn [In]; intuition.
+Qed.
+Lemma In_minsert e k v m : In e (minsert k v m) -> e = (k, v) \/ In e m.
+Proof.
+  induction m as [|[k0 v0] m IH]; cbn [minsert In]; [intuition|].
+  destruct (bytes_ltb k k0); cbn [In]; intuition.
+Qed.
+Lemma In_mset e k v m : In e (mset k v m) -> e = (k, v) \/ In e m.
+Proof. unfold mset. intros H. apply In_minsert in H as [H|H]; [left; exact H|right; eapply In_mremove; exact H]. Qed.
+
+Lemma In_mremove_other k v k0 m : In (k, v) m -> k <> k0 -> In (k, v) (mremove k0 m).
+Proof.
+  intros I N. induction m as [|[k1 v1] m IH]; [destruct I|]. cbn [mremove].
+  destruct I as [E|I].
+  - injection E as -> ->. destruct (bytes_eqb_spec k0 k); [congruence|]. left; reflexivity.
+  - destruct (bytes_eqb k0 k1); [apply IH; exact I|]. right. apply IH; exact I.
+Qed.
+Lemma In_minsert_old e k v m : In e m -> In e (minsert k v m).
+Proof.
+  induction m as [|[k0 v0] m IH]; cbn [minsert]; [intros []|].
+  destruct (bytes_ltb k k0); cbn [In]; intuition.
+Qed.
+Lemma In_mset_other k v k0 v0 m : In (k, v) m -> k <> k0 -> In (k, v) (mset k0 v0 m).
+Proof. intros I N. unfold mset. apply In_minsert_old. apply In_mremove_other; assumption. Qed.
+
+Lemma forallb_mset (p : bytes * json -> bool) k v m :
+  p (k, v) = true -> forallb p m = true -> forallb p (mset k v m) = true.
+Proof.
+  intros Pk Pm. apply forallb_forall. intros e I. apply In_mset in I as [->|I]; [exact Pk|].
+  rewrite forallb_forall in Pm. apply Pm. exact I.
+Qed.
+
+(* at most one member per key *)
+Definition uniq (m : jmap) : Prop := forall k, (length (filter (has_key k) m) <= 1)%nat.
+
+Lemma uniq_nil : uniq [].
+Proof. intros k. cbn. lia. Qed.
+Lemma uniq_mset k v m : uniq m -> uniq (mset k v m).
+Proof.
+  intros U k'. destruct (bytes_eqb_spec k k') as [->|N].
+  - rewrite filter_mset_same. cbn. lia.
+  - rewrite filter_mset_other by exact N. apply U.
+Qed.
+
+Lemma uniq_filter k v m : uniq m -> In (k, v) m -> filter (has_key k) m = [(k, v)].
+Proof.
+  intros U I. specialize (U k).
+  assert (I' : In (k, v) (filter (has_key k) m)) by (apply filter_In; split; [exact I|apply has_key_self]).
+  destruct (filter (has_key k) m) as [|e [|e' t]].
+  - destruct I'.
+  - destruct I' as [->|[]]. reflexivity.
+  - cbn [length] in U. lia.
+Qed.
+
+(* ---------- text ---------- *)
+Lemma json_text_ok_obj ms :
+  json_text_ok (JObj ms) = forallb (fun m => utf8_valid (fst m) && json_text_ok (snd m)) ms.
+Proof.
+  cbn [json_text_ok]. induction ms as [|[k v] ms IH]; [reflexivity|]. cbn [forallb fst snd]. rewrite IH. reflexivity.
+Qed.
+
+Definition ascii_only (s : bytes) : Prop := Forall (fun c => b2n c < 128) s.
+
+Lemma ascii_utf8 s : ascii_only s -> utf8_valid s = true.
+Proof.
+  induction 1 as [|c s Hc Hs IH]; [reflexivity|]. cbn [utf8_valid].
+  replace (b2n c <? 128) with true by (symmetry; apply N.ltb_lt; exact Hc). exact IH.
+Qed.
+
+Lemma hex_digit_ascii n : n < 16 -> b2n (hex_digit n) < 128.
+Proof.
+  intros H. rewrite <- (N2Nat.id n). rewrite b2n_hex_digit_nat by lia.
+  destruct (N.of_nat (N.to_nat n) <? 10) eqn:E; lia.
+Qed.
+
+Lemma hex_encode_ascii b : ascii_only (hex_encode b).
+Proof.
+  induction b as [|x b IH]; [constructor|]. unfold hex_encode in *. cbn [flat_map app].
+  constructor; [apply hex_digit_ascii, hi_lt|]. constructor; [apply hex_digit_ascii, lo_lt|]. exact IH.
+Qed.
+
+Lemma ascii_only_app a b : ascii_only a -> ascii_only b -> ascii_only (a ++ b).
+Proof. intros A B. apply Forall_app. split; assumption. Qed.
+Lemma ascii_only_firstn n a : ascii_only a -> ascii_only (firstn n a).
+Proof. intros H. unfold ascii_only in *. rewrite <- (firstn_skipn n a) in H. apply Forall_app in H. tauto. Qed.
+Lemma ascii_only_skipn n a : ascii_only a -> ascii_only (skipn n a).
+Proof. intros H. unfold ascii_only in *. rewrite <- (firstn_skipn n a) in H. apply Forall_app in H. tauto. Qed.
+
+Lemma uuid_string_ascii u : ascii_only (uuid_string u).
+Proof.
+  unfold uuid_string. pose proof (hex_encode_ascii u) as H.
+  assert (D : ascii_only [x2d]) by (constructor; [cbn; lia|constructor]).
+  repeat apply ascii_only_app; auto using ascii_only_firstn, ascii_only_skipn.
+Qed.
